@@ -52,17 +52,17 @@ def _first_nul(ctx, cells):
 def _iter(ctx, elf, off, size, via):
     N = ctx.lib('elf.notes')
     if via == 'func':
-        return list(N.iter_notes(elf, off, size))
+        return ctx.drain(N.iter_notes(elf, off, size))
     if via == 'section':
         SEC = ctx.lib('elf.sections')
         hdr = {'sh_offset': off, 'sh_size': size, 'sh_type': 'SHT_NOTE', 'sh_flags': 0, 'sh_addralign': 4}
         elf.structs  # noqa
         sec = SEC.NoteSection(hdr, '.note', elf)
-        return list(sec.iter_notes())
+        return ctx.drain(sec.iter_notes())
     SEG = ctx.lib('elf.segments')
     hdr = {'p_offset': off, 'p_filesz': size, 'p_type': 'PT_NOTE'}
     seg = SEG.NoteSegment(hdr, elf.stream, elf)
-    return list(seg.iter_notes())
+    return ctx.drain(seg.iter_notes())
 
 
 # ------------------------------------------------------------------ H14.1 one step, symbolic sizes
@@ -306,7 +306,7 @@ def h_stabs(ctx):
     elf = _Elf(ctx, ctx.stream(image), little, cfg['elfclass'])
     hdr = {'sh_offset': base, 'sh_size': 12 * k, 'sh_type': 'SHT_PROGBITS', 'sh_flags': 0, 'sh_addralign': 4}
     sec = SEC.StabSection(hdr, '.stab', elf)
-    got = list(sec.iter_stabs())
+    got = ctx.drain(sec.iter_stabs())
     ctx.outcome('ok')
     ctx.check_eq('stabs/count', len(got), k)
     if len(got) == k:
